@@ -433,9 +433,7 @@ def mem_type_to_id(ctx, F, inst, adt, inv, MID):
     tb = T.TB(F, body)
     name = "MemoryAreaType->MemoryAreaTypeId"
     rb = body.return_blocks
-    if len(rb) != 1:
-        return ctx.fail("CLASSIFY", name + ":shape", "%s has one return" % name, site(inst), "%d returns" % len(rb))
-    rt = tb.read(0, (), (rb[0], len(body.stmts(rb[0]))))
+    rt = tb.read(0, (), (rb[0], len(body.stmts(rb[0])))) if len(rb) == 1 else ("opq", "several returns")
     variants = adt["variants"]
     dom = ((0, len(variants) - 1),)
     # form 1: wrap(phi local) - the match computes the integer, one wrapper at the end
